@@ -268,3 +268,21 @@ Proof.
   change (map (fun gj => simpsonR x1 f * gj) g) with (vscaleR (simpsonR x1 f) g).
   apply simpson_vscale. exact H2.
 Qed.
+
+(* ---------- the normalisation option of the basis constructor (C18): values / sqrt(simpson(values^2)) ---------- *)
+Lemma vmul_vscale_both c : forall f g, vmulR (vscaleR c f) (vscaleR c g) = vscaleR (c * c) (vmulR f g).
+Proof.
+  induction f as [|a f IH]; intros [|b g]; try reflexivity.
+  change (vmulR (vscaleR c (a :: f)) (vscaleR c (b :: g))) with (c * a * (c * b) :: vmulR (vscaleR c f) (vscaleR c g)).
+  rewrite IH. change (vscaleR (c * c) (vmulR (a :: f) (b :: g))) with (c * c * (a * b) :: vscaleR (c * c) (vmulR f g)).
+  f_equal. ring.
+Qed.
+Lemma vmul_length f : forall g, length g = length f -> length (vmulR f g) = length f.
+Proof. induction f as [|a f IH]; intros [|b g] H; simpl in H; try discriminate; [reflexivity|]. cbn [vmul map2 length]. f_equal. apply IH. lia. Qed.
+
+Theorem simpson_normalised_unit x f r : length f = length x -> r <> 0 -> r * r = simpsonR x (vmulR f f) ->
+  simpsonR x (vmulR (vscaleR (/ r) f) (vscaleR (/ r) f)) = 1.
+Proof.
+  intros L Hr E. rewrite vmul_vscale_both, simpson_vscale by (rewrite vmul_length; auto).
+  rewrite <- E. field. exact Hr.
+Qed.
